@@ -135,7 +135,9 @@ def NoJunction : Tree → Prop
 
 /-- "No nested junctions": no junction lies inside a branch of another junction other than that
     junction's LAST branch (in frame order). Chains, single forks/crosses, and coupler lines in which
-    every fork's last port continues the line all satisfy this. -/
+    every fork's last port continues the line all satisfy this. (The hypothesis of the former
+    `parent_is_true_parent_partial`; no theorem needs it since the parent search skips junctions
+    without a free downstream port. Kept to state that the former witnesses lie outside it.) -/
 def NoNestedJunction : Tree → Prop
   | .none => True
   | .node _ c3 c1 c2 =>
